@@ -52,9 +52,9 @@ PROPS["C17"] = {
 
 PROPS["C12"] = {
     "lean": ["OlricModel.Props.C12"],
-    "streams": [("kv", (40, 300), (500, 400)), ("cluster", (6, 150), (40, 400))],
+    "streams": [("kv", (40, 300), (500, 400)), ("cluster", (6, 150), (40, 400)), ("rebalance", (6, 3), (24, 5))],
     "model": True,
-    "level_text": "Theorems for every reachable store state: a cursor-resumed walk over one table yields every (matching) entry at or after the cursor exactly once for every page size >= 1 (walkTable_complete, by induction, no bound on the table); the hop to the next table picks the least existing coefficient above the current one; and the whole iteration of a fragment store from cursor 0, every page stamping lastAccess and handing the store on, ends within entries + tables + 1 pages and yields, lastAccess aside, a rearrangement of the entries of the present keys matching the pattern - every present key exactly once, nothing deleted, superseded or never stored (C12_full_walk, C12_full_walk_exactly_once, C12_full_walk_complete_sound), under an invariant on table coefficients and offsets that every store operation keeps (C12_scaninv_step/_run). The per-partition / per-member composition of the client iterators is checked by the kv and cluster streams (partial).",
+    "level_text": "Theorems for every reachable store state: a cursor-resumed walk over one table yields every (matching) entry at or after the cursor exactly once for every page size >= 1 (walkTable_complete, by induction, no bound on the table); the hop to the next table picks the least existing coefficient above the current one; and the whole iteration of a fragment store from cursor 0, every page stamping lastAccess and handing the store on, ends within entries + tables + 1 pages and yields, lastAccess aside, a rearrangement of the entries of the present keys matching the pattern - every present key exactly once, nothing deleted, superseded or never stored (C12_full_walk, C12_full_walk_exactly_once, C12_full_walk_complete_sound), under an invariant on table coefficients and offsets that every store operation keeps (C12_scaninv_step/_run). The client iterator's composition for one partition (Cluster/Iterator.lean, following cluster_iterator.go / embedded_iterator.go as repaired by 4f77bd3: every owner still on the iterator's route answers its next page, keys met before are skipped, an owner whose cursor comes back 0 leaves the route): for every set of owners and whatever pages they answer, every page of every owner is fetched exactly once, the walk ends, no key is handed out twice and exactly the keys of some page of some owner are handed out (C12_client_iterator); its shape is extracted on every run (facts_tie). Tied to the code by the kv, cluster and rebalance streams: all five client paths, MATCH and COUNT, one to three members and copies, previous owners during a hand-over, a consumer slower than the iterator's routing-table refresh, and a bound on the number of scan requests the members serve for one iteration. The partition loop across members and the routing-table refresh are checked by the streams only (partial).",
     "design_ref": "DESIGN.md §6 C12",
     "modelled": "table.Scan/ScanRegexMatch, kvstore.scanCommon/findCoefficient (Store/Model.lean); regexp matching is a parameter",
     "assumptions": ["regexp / glob matching is a parameter `m : Rec -> Bool` that does not look at lastAccess (LaInd)", "the store does not change during the iteration other than by the iteration's own lastAccess stamps (stable keys); iterations interleaved with writes, compaction and table kills are explored by the kv stream", "the cluster/embedded iterator (cluster_iterator.go) is not modelled in Lean; exercised by the cluster streams only"],
